@@ -93,8 +93,12 @@ class Run:
         ev = {"property_id": self.prop, "tier": self.tier if self.tier in ("quick", "thorough") else "quick",
               "seed": self.seed, "level": self.level, "coverage": cov, "assumptions": self.assumptions,
               "wall_s": round(wall, 2), "violations": len(seen)}
-        os.makedirs(os.path.join(VERIF, "evidence"), exist_ok=True)
-        with open(os.path.join(VERIF, "evidence", self.prop + ".json"), "w") as f:
+        # runs against anything but /repo's own unchanged tree (seeded changes tried by tools/run_mutant.sh,
+        # tools/try_mutant.sh, tools/mutant_matrix.sh) must not overwrite the evidence of the registered checks
+        scratch = os.environ.get("VERIF_SCRATCH_EVIDENCE") or os.environ.get("GASOL_VERIF_REPO", "/repo") != "/repo"
+        evdir = os.path.join(VERIF, ".scratch", "evidence") if scratch else os.path.join(VERIF, "evidence")
+        os.makedirs(evdir, exist_ok=True)
+        with open(os.path.join(evdir, self.prop + ".json"), "w") as f:
             json.dump(ev, f, indent=1, default=str)
         for fp, v in self.known_hits.items():
             print("KNOWN-FINDING: property=%s %s [%s] (seen %d times this run)" % (self.prop, v[1], fp, v[0]))
